@@ -71,6 +71,9 @@ def instances(tier, seed):
         out.append(dict(name="Const(%r, %s) vs its sub-construct" % (vals[0], sub), params=dict(kind="constseq", sub=sub, n=n, c=vals[0].hex() if isinstance(vals[0], bytes) else vals[0], text=text)))
         out.append(dict(name="ExprValidator(%s, obj_ != %r)" % (sub, vals[0]), params=dict(kind="validatorseq", sub=sub, n=n, c=vals[0].hex() if isinstance(vals[0], bytes) else vals[0], text=text)))
         out.append(dict(name="Mapping(%s, labels -> %r)" % (sub, vals), params=dict(kind="mappingseq", sub=sub, n=n, vals=[v.hex() if isinstance(v, bytes) else v for v in vals], text=text)))
+    for i, (sub, coll) in enumerate(COLLECTIONS):
+        for neg in (False, True):
+            out.append(dict(name="%s(%s, %s)" % ("NoneOf" if neg else "OneOf", sub, coll), params=dict(kind="oneofcoll", i=i, neg=neg)))
     out.append(dict(name="Enum from IntEnum", params=dict(kind="enum-intenum")))
     out.append(dict(name="Enum built from another Enum's label object", params=dict(kind="enum-foreign")))
     for i in range(len(ERROR_BUILD_NONE)):
@@ -80,9 +83,45 @@ def instances(tier, seed):
     for w in ("Select({}, Byte)", "Optional({})", "GreedyRange({})", "Peek({})", "Struct('a'/Byte, 'e'/{})", "Sequence(Byte, {})", "Array(1, {})",
               "Struct('a'/Byte, 'e'/If(this.a == 1, {}))", "FixedSized(2, {})", "Select(Struct('x'/Byte, 'e'/{}), Byte)", "GreedyRange(Select({}, Byte))",
               "Struct('k'/Byte, 's'/Switch(this.k, {{1: {}}}, default=Byte))", "FocusedSeq('a', 'a'/Byte, 'e'/{})", "Union(None, 'a'/Byte, 'e'/{})",
-              "Peek(Struct('a'/Byte, {}))", "Padded(2, {})", "NullTerminated({}, require=False)", "Lazy({})" if False else "Pointer(0, {})"):
+              "Peek(Struct('a'/Byte, {}))", "GreedyRange({}, discard=True)", "Array(1, {}, discard=True)", "RepeatUntil(True, {}, discard=True)", "Struct('r'/GreedyRange(Struct('x'/Byte, {}), discard=True), 't'/Byte)", "Padded(2, {})", "NullTerminated({}, require=False)", "Lazy({})" if False else "Pointer(0, {})"):
         out.append(dict(name="Error inside %s" % w.format("Error"), params=dict(kind="error", source=w.format("Error"))))
     return out
+
+
+# collections other than lists: membership is Python's `in` for that collection (substring for bytes / str collections)
+COLLECTIONS = [("Bytes(1)", "b'\\x00\\xff'"), ("Bytes(2)", "b'abcd'"), ("Bytes(1)", "b'abc'"), ("PaddedString(1, 'ascii')", "'xyz'"), ("Byte", "range(3, 6)"), ("Byte", "{1, 200}"),
+               ("Int16ub", "(7, 513)"), ("Byte", "frozenset([0, 255])")]
+
+
+def _oneofcoll(ctx, C, p):
+    sub_src, coll_src = COLLECTIONS[p["i"]]
+    coll = eval(coll_src)
+    sub = mk(C, sub_src)
+    d = mk(C, "%s(%s, %s)" % ("NoneOf" if p["neg"] else "OneOf", sub_src, coll_src))
+    n = sub.sizeof()
+    data = ctx.bytes("data", n)
+    rp = api.outcome(sub.parse, data)
+    r = api.outcome(d.parse, data)
+    if not rp.ok:
+        ctx.check("what the sub-construct rejects the validator rejects", not r.ok)
+        return "sub-reject"
+    v = rp.value
+    if isinstance(coll, (bytes, str)):
+        k = len(v)
+        cands = [coll[i:i + k] for i in range(len(coll) - k + 1)]
+        member = api.or_terms([ctx.eq(v, c) for c in cands])
+    else:
+        member = api.or_terms([ctx.eq(v, c) for c in sorted(coll)])
+    want = api.not_term(member) if p["neg"] else member
+    if ctx.fork(want):
+        ctx.check("a value the collection admits parses and is returned unchanged", r.ok and ctx.fork(ctx.eq(r.value, v)))
+        b = api.outcome(d.build, v)
+        ctx.check("and builds to the plain encoding", b.ok and ctx.fork(ctx.eq(b.value, sub.build(v))))
+        return "admitted"
+    ctx.check("a value the collection excludes is rejected with ValidationError on parse", (not r.ok) and isinstance(r.exc, C.ValidationError))
+    b = api.outcome(d.build, v)
+    ctx.check("and refused with ValidationError on build", (not b.ok) and isinstance(b.exc, C.ValidationError))
+    return "excluded"
 
 
 ERROR_BUILD_NONE = [
@@ -520,7 +559,7 @@ def _error(ctx, C, p):
             return "not-reached"
     ctx.check("Error aborts parsing with ExplicitError (got %s)" % (type(r.exc).__name__ if not r.ok else "a value"),
               (not r.ok) and isinstance(r.exc, C.ExplicitError))
-    sample = {"Select(": 1, "Optional(": None, "GreedyRange(": [None], "Struct('a'/Byte, 'e'": dict(a=1, e=None), "Sequence(": [1, None], "Array(": [None]}
+    sample = {"Select(": 1, "Optional(": None, "GreedyRange(": [None], "RepeatUntil(": [None], "Struct('r'": dict(r=[dict(x=1)], t=1), "Struct('a'/Byte, 'e'": dict(a=1, e=None), "Sequence(": [1, None], "Array(": [None]}
     v = None
     for k, val in sample.items():
         if p["source"].startswith(k):
